@@ -487,8 +487,11 @@ def _create_parsing_expression(tree, defined=()):
                 *[unwrap(x) for x in args if not isinstance(x, ex.KeywordArg)],
                 **{x.name: unwrap(x.expr) for x in args if isinstance(x, ex.KeywordArg)},
             )
-        else:
+        elif args:
             return ex.Call(left, args)
+        else:
+            # "X()" is the rule X (and is memoized under the same key).
+            return left
 
     if isinstance(tree, (parser.OperatorTable, parser.OperatorRow)):
         return tree
